@@ -5,7 +5,7 @@ from .. import runner, textgen
 from ..strcorpus import FIELD_NAMES
 
 KEYS = ['Teacher', 'room', 'students', 'mandatory', 'fn', 'type', 'match', 'Key_9', 'x', 'self', 'Self', 'r2d2', 'r#type', 'r#room', 'r#fn', 'größe', 'é', 'gefüttert_heute', 'ключ']
-STRS = ['Ms.Frizzle', '', 'ünï "q" \\', '{0}', '201']
+STRS = ['Ms.Frizzle', '', 'ünï "q" \\', '{0}', '201', 'true', 'false']
 INTS = [0, 16, -1, -9223372036854775808, 9223372036854775807, 42, -100]
 KINDS = [('unit', []), ('tuple', ['u8']), ('named', ['i32', 'String']), ('tuple', []), ('named', [])]
 
